@@ -11,7 +11,7 @@ THEOREMS = [
     "XcmModel.C10.C10_set_rejects_without_effect", "XcmModel.C10.C10_names_total",
     "XcmModel.FuncsTie.valid_set_attr_len_tie",
     "XcmModel.FuncsTie.is_special_tie",
-    "XcmModel.AttrTreeProps.lookup_add_value_same", "XcmModel.AttrTreeProps.lookup_add_unrelated", "XcmModel.AttrTreeProps.listed_is_found", "XcmModel.AttrTreeProps.found_is_listed",
+    "XcmModel.AttrTreeProps.lookup_add_value_same", "XcmModel.AttrTreeProps.lookup_add_unrelated", "XcmModel.AttrTreeProps.listed_is_found", "XcmModel.AttrTreeProps.found_is_listed", "XcmModel.AttrTreeProps.walk_found_is_listed",
 ]
 
 CAP_APIS = ["get", "get_notype", "getf", "str", "bin", "getf_str", "getf_bin"]
